@@ -380,6 +380,9 @@ type vfConn struct {
 	lateW     int // Write calls that started after Close returned
 	lateWAt   []time.Duration
 	firstWErr time.Duration // instant of the first Write that failed with the injected error
+	// writeDelay: every Write takes this long (a transport whose Write blocks for a while, as a
+	// DTLS connection under back-pressure does); the packet is on the wire when Write returns
+	writeDelay time.Duration
 }
 
 type vfNet struct {
@@ -443,6 +446,12 @@ func (c *vfConn) Read(p []byte) (int, error) {
 }
 
 func (c *vfConn) Write(p []byte) (int, error) {
+	c.mu.Lock()
+	wd := c.writeDelay
+	c.mu.Unlock()
+	if wd > 0 {
+		time.Sleep(wd)
+	}
 	c.mu.Lock()
 	select {
 	case <-c.closed:
